@@ -124,6 +124,7 @@ pub struct World {
     // contract tracking
     contract_ok: bool,
     broken_by: String,
+    cur_op: String,
     any_panic: bool,
     dropped_targets: Vec<usize>,
     c14: Vec<(usize, usize)>,
@@ -798,8 +799,16 @@ fn oracles(w: &mut World, pre_lower: &[usize], out: &mut String) {
     }
     if !contract_now && w.contract_ok {
         w.contract_ok = false;
+        w.broken_by = w.cur_op.clone();
     }
-    let _ = write!(out, "orc contract={} c14={} fail={}", w.contract_ok as u8, w.c14.len(), fails.join(";"));
+    let _ = write!(
+        out,
+        "orc contract={} broken_by={} c14={} fail={}",
+        w.contract_ok as u8,
+        if w.broken_by.is_empty() { "-" } else { &w.broken_by },
+        w.c14.len(),
+        fails.join(";")
+    );
 }
 
 /// C03 lower bound, computed on the ledger *before* the op runs: the objects that the op
@@ -986,6 +995,7 @@ fn run_ops(ops: &[(String, Op)], cleanup: bool, out: &mut String, boxes0: isize)
             _ => (vec![], false),
         });
         with(|w| {
+            w.cur_op = text.split_whitespace().next().unwrap_or("").to_string();
             w.dseq.clear();
             w.rets.clear();
             w.scripted_panics = 0;
